@@ -7,6 +7,15 @@ Pattern: every statement about a zone is first proved for the table *suffix* fun
 after) by induction over the table, then transferred to the zone by `fromLocal_eq_from`: for any
 `t0` early enough the unbounded first span behaves like a span starting at a virtual transition
 `t0`.
+
+Two table conditions: `orderedFrom` / `spansOrdered` (local spans in order; a fold may follow a gap
+directly) carries the gap structure, the value of `datetime` in a gap, `gap_above` / `gap_below`
+(what the clock shows after / before the forward jump) and monotonicity; `spacedFrom` / `spaced`
+(which implies it: `spansOrdered_of_spaced`) is only needed for "read exactly once" (`first_minute`,
+`fromLocal_length_le_two`, D16 with the end on the landing time).
+`datetime` (code of /repo e1e5204) = `latest()` of the requested time, or `earliest()` of the first
+existing `requested + k min`, walked back by seconds with `earliest()`: `found?`, `minuteLoop`,
+`walkBack`.
 -/
 namespace OH.Proofs.Tz
 open OH.Model OH.Model.Tz
